@@ -158,6 +158,7 @@ def check_pnorm(project: Project, rep):
 
 
 def check_sup_and_wiring(project: Project, rep):
+    from .common import expand_locals, fn_view
     oa = own_analysis(project)
     for cq, kind in (("persim.landscapes.exact.PersLandscapeExact", "exact"),
                      ("persim.landscapes.approximate.PersLandscapeApprox", "approx")):
@@ -203,18 +204,21 @@ def check_sup_and_wiring(project: Project, rep):
             rep.discharged("NM-WIRE", pn, pn.node, f"{kind}: p_norm delegates to _p_norm")
         else:
             rep.refuted("NM-WIRE", pn, pn.node, f"{kind}: p_norm no longer delegates to the shared segment integrator")
-        call = [n for n in ast.walk(pn.node) if isinstance(n, ast.Call) and
-                project.resolve(pn.module, n.func, local_names(pn.node)) == PN]
+        pnv = pn.node  # not the inlined view: the call of the private integrator is what is looked at
+        call = [n for n in ast.walk(pnv) if isinstance(n, ast.Call) and
+                project.resolve(pn.module, n.func, local_names(pnv)) == PN]
+        from .common import bind_call
         for n in call:
-            kws = {k.arg: ast.unparse(k.value) for k in n.keywords}
-            args = [ast.unparse(a) for a in n.args]
-            pv = kws.get("p", args[0] if args else None)
-            cv = kws.get("critical_pairs", args[1] if len(args) > 1 else None)
+            b_ = {k: ast.unparse(expand_locals(pnv, v)) for k, v in bind_call(project.function(PN).node, n).items()}
+            pv, cv = b_.get("p"), b_.get("critical_pairs")
             want = "self.critical_pairs" if kind == "exact" else "self.values_to_pairs()"
-            if pv == "p" and cv == want:
+            p_name = pn.params[1] if len(pn.params) > 1 else "p"
+            if pv == p_name and cv == want:
                 rep.discharged("NM-WIRE", pn, n, f"{kind}: _p_norm(p=p, critical_pairs={want})")
-            else:
+            elif pv is not None and cv is not None and (cv.startswith("self.") or pv != p_name):
                 rep.refuted("NM-WIRE", pn, n, f"{kind}: _p_norm is called with p={pv}, critical_pairs={cv} (expected p, {want})")
+            else:
+                rep.unmodelled("NM-WIRE", pn, n, f"{kind}: arguments of _p_norm not recognised (p={pv}, critical_pairs={cv})")
     base = project.function("persim.landscapes.base.PersLandscape.p_norm")
     rep.analysed(base)
     txt = ast.unparse(base.node)
